@@ -20,6 +20,8 @@ import (
 	protoMetricsV1 "github.com/lindb/common/proto/gen/v1/linmetrics"
 	"google.golang.org/grpc"
 
+	"github.com/lindb/lindb/aggregation"
+	"github.com/lindb/lindb/aggregation/function"
 	"github.com/lindb/lindb/config"
 	"github.com/lindb/lindb/flow"
 	"github.com/lindb/lindb/kv"
@@ -74,6 +76,9 @@ type env struct {
 	proc     query.TaskProcessor
 	reqSeq   int
 	fams     map[int]tsdb.DataFamily
+	// the last leaf answer and its statement (input of the expression check)
+	lastTSL  *protoCommonV1.TimeSeriesList
+	lastStmt *stmt.Query
 }
 
 func newEnv(intervalMs int64) (*env, error) {
@@ -337,6 +342,7 @@ func (e *env) leafQuery(spf int, q qSpec) (aggResult, string, error) {
 		Targets:   []*models.Target{{Indicator: e.node.Indicator(), ShardIDs: []models.ShardID{1}}},
 		Receivers: []string{recvName}}
 	e.reqSeq++
+	e.lastTSL, e.lastStmt = nil, nil
 	req := &protoCommonV1.TaskRequest{RequestID: "r" + strconv.Itoa(e.reqSeq), RequestType: protoCommonV1.RequestType_Data,
 		PhysicalPlan: encoding.JSONMarshal(plan), Payload: payload}
 	tctx := flow.NewTaskContextWithTimeout(context.Background(), 20*time.Second)
@@ -356,6 +362,7 @@ func (e *env) leafQuery(spf int, q qSpec) (aggResult, string, error) {
 	if err := tsl.Unmarshal(resp.Payload); err != nil {
 		return nil, "", err
 	}
+	e.lastTSL, e.lastStmt = tsl, qs
 	out := aggResult{}
 	for _, ts := range tsl.TimeSeriesList {
 		key := groupKeyOf(ts.Tags, len(q.by))
@@ -515,4 +522,60 @@ func (e *env) schemaDump() string {
 		ts = append(ts, fmt.Sprintf("%s#%d", t.Key, t.ID))
 	}
 	return fmt.Sprintf("metric=%d fields=%v tagKeys=%v", mid, fs, ts)
+}
+
+// exprEval does what the root does with a leaf answer: merge it in a grouping aggregator with
+// interval ratio 1 (MetricContext.handleResponse) and evaluate the select items with
+// aggregation.NewExpression (RootMetricContext.makeResultSet). Result: group key → item index →
+// bucket → value.
+func (e *env) exprEval(q qSpec) (map[string]map[int]map[int]float64, error) {
+	tsl, qs := e.lastTSL, e.lastStmt
+	if tsl == nil || qs == nil {
+		return nil, fmt.Errorf("no leaf answer")
+	}
+	out := map[string]map[int]map[int]float64{}
+	if len(tsl.FieldAggSpecs) == 0 {
+		return out, nil
+	}
+	specs := make(aggregation.AggregatorSpecs, len(tsl.FieldAggSpecs))
+	for idx, aggSpec := range tsl.FieldAggSpecs {
+		specs[idx] = aggregation.NewAggregatorSpec(field.Name(aggSpec.FieldName), field.Type(aggSpec.FieldType))
+		for _, ft := range aggSpec.FuncTypeList {
+			specs[idx].AddFunctionType(function.FuncType(ft))
+		}
+	}
+	tr := timeutil.TimeRange{Start: tsl.Start, End: tsl.End}
+	ga := aggregation.NewGroupingAggregator(timeutil.Interval(tsl.Interval), 1, tr, specs)
+	for _, ts := range tsl.TimeSeriesList {
+		if len(ts.Fields) == 0 {
+			continue
+		}
+		fields := make(map[field.Name][]byte)
+		for k, v := range ts.Fields {
+			fields[field.Name(k)] = v
+		}
+		ga.Aggregate(series.NewGroupedIterator(ts.Tags, fields))
+	}
+	for _, it := range ga.ResultSet() {
+		expr := aggregation.NewExpression(tr, tsl.Interval, qs.SelectItems)
+		expr.Eval(it)
+		rs := expr.ResultSet()
+		key := groupKeyOf(it.Tags(), len(q.by))
+		g := map[int]map[int]float64{}
+		for idx, item := range qs.SelectItems {
+			arr, ok := rs[item.Rewrite()]
+			if !ok || arr == nil {
+				continue
+			}
+			vals := map[int]float64{}
+			ai := arr.NewIterator()
+			for ai.HasNext() {
+				slot, v := ai.Next()
+				vals[slot] = v
+			}
+			g[idx] = vals
+		}
+		out[key] = g
+	}
+	return out, nil
 }
